@@ -25,11 +25,11 @@ theorem addUser_plain {n : Str} (h : NickOK n) (c : Chan) : c.addUser n = { c wi
 theorem joinOne_fields (nick : Str) (b : Bot) (name : Str) :
     (Bot.joinOne nick b name).nick = b.nick ∧ (Bot.joinOne nick b name).pfx = b.pfx ∧
     (Bot.joinOne nick b name).n2h = b.n2h ∧ (Bot.joinOne nick b name).cfgNick = b.cfgNick ∧
-    (Bot.joinOne nick b name).cfgIdent = b.cfgIdent := by
+    (Bot.joinOne nick b name).cfgIdent = b.cfgIdent ∧ (Bot.joinOne nick b name).isup = b.isup := by
   unfold Bot.joinOne
   split
-  · exact ⟨rfl, rfl, rfl, rfl, rfl⟩
-  · split <;> exact ⟨rfl, rfl, rfl, rfl, rfl⟩
+  · exact ⟨rfl, rfl, rfl, rfl, rfl, rfl⟩
+  · split <;> exact ⟨rfl, rfl, rfl, rfl, rfl, rfl⟩
 
 theorem foldl_joinOne_n2h (nick : Str) (names : List Str) (b : Bot) :
     (names.foldl (Bot.joinOne nick) b).n2h = b.n2h := by
@@ -65,7 +65,7 @@ theorem Tracks.append_false {full : Prop} {S : List Str} {ms : List (Str × Flag
 theorem coupled_told_add {s : Srv} {b : Bot} (hc : Coupled s b) {k : Str}
     (hk : ∀ u, aget s.users k = some u → aget b.n2h k = some u.mask) :
     Coupled { s with told := sadd s.told k } b := by
-  refine ⟨hc.nick, hc.chans, ?_, hc.pfx, hc.cfgNick, hc.cfgIdent⟩
+  refine ⟨hc.nick, hc.chans, ?_, hc.pfx, hc.cfgNick, hc.cfgIdent, hc.isup⟩
   intro k' u hu ht
   have ht' : k' ∈ sadd s.told k := ht
   rcases mem_sadd.mp ht' with rfl | h
@@ -116,7 +116,7 @@ theorem joinOthers_sim (k : Str) (u : SUser) (hk : lower u.nick = k) (cs : List 
             | some ch => rw [hbc] at hrel; simp only [ChanRel] at hrel
           have hcoup : Coupled { s with chans := aset s.chans (lower c) { name := c, members := [(k, { o := true })] } } b := by
             refine coupled_update' hc (lower c) rfl rfl rfl rfl rfl rfl
-              (fun k' hk' => aget_aset_ne _ _ (Ne.symm hk')) (fun _ _ => rfl) ?_ rfl rfl rfl rfl rfl ?_ ?_
+              (fun k' hk' => aget_aset_ne _ _ (Ne.symm hk')) (fun _ _ => rfl) ?_ rfl rfl rfl rfl rfl rfl ?_ ?_
             · rw [aget_aset_self, hbn]
               simp only [ChanRel]
               rw [has_false_iff]
@@ -157,7 +157,7 @@ theorem joinOthers_sim (k : Str) (u : SUser) (hk : lower u.nick = k) (cs : List 
                   unfold Bot.joinOne
                   simp only [hchan, Bot.setChan, hcw.key, addUser_plain huo.nick, hk]
                   refine coupled_update' hc (lower c) rfl rfl rfl rfl rfl rfl
-                    (fun k' hk' => aget_aset_ne _ _ (Ne.symm hk')) (fun k' hk' => aget_aset_ne _ _ (Ne.symm hk')) ?_ rfl rfl rfl rfl rfl ?_ ?_
+                    (fun k' hk' => aget_aset_ne _ _ (Ne.symm hk')) (fun k' hk' => aget_aset_ne _ _ (Ne.symm hk')) ?_ rfl rfl rfl rfl rfl rfl ?_ ?_
                   · simp only [aget_aset_self, ChanRel]
                     refine ⟨?_, ?_⟩
                     · rw [has_iff] at hb' ⊢
@@ -193,7 +193,7 @@ theorem joinOthers_sim (k : Str) (u : SUser) (hk : lower u.nick = k) (cs : List 
                 · exact hkb e.symm
               have hcoup : Coupled { s with chans := aset s.chans (lower c) { sc with members := sc.members ++ [(k, {})] } } b := by
                 refine coupled_update' hc (lower c) rfl rfl rfl rfl rfl rfl
-                  (fun k' hk' => aget_aset_ne _ _ (Ne.symm hk')) (fun _ _ => rfl) ?_ rfl rfl rfl rfl rfl ?_ ?_
+                  (fun k' hk' => aget_aset_ne _ _ (Ne.symm hk')) (fun _ _ => rfl) ?_ rfl rfl rfl rfl rfl rfl ?_ ?_
                 · rw [aget_aset_self, hbn]; simp only [ChanRel]; exact hnb
                 · intro sc0 sc' h0 h' hb''
                   rw [aget_aset_self] at h'; cases h'
@@ -305,12 +305,12 @@ theorem coupled_quit {s : Srv} {b : Bot} (hw : SrvWF s) (hc : Coupled s b) (n r 
       have huo := hw.uok hu
       have hnown : ¬ u.nick = b.nick := fun e => hnb ((own_iff hw hc hu).mp e)
       -- the generic argument: any bot state `b1` that is `b` with the quitter removed where the bot saw him
-      have hgen : ∀ (b1 : Bot), b1.nick = b.nick → b1.pfx = b.pfx → b1.cfgNick = b.cfgNick → b1.cfgIdent = b.cfgIdent →
+      have hgen : ∀ (b1 : Bot), b1.nick = b.nick → b1.pfx = b.pfx → b1.cfgNick = b.cfgNick → b1.cfgIdent = b.cfgIdent → b1.isup = b.isup →
           (∀ x, x ≠ lower n → aget b1.n2h x = aget b.n2h x) →
           (∀ kc, aget b1.channels kc = (aget b.channels kc).map (fun c => if lower n ∈ c.users then c.removeUser u.nick else c)) →
           Coupled { s.dropEverywhere (lower n) with users := adel s.users (lower n), told := sdel s.told (lower n) } b1 := by
-        intro b1 h1 h2 h3 h4 h5 h6
-        refine ⟨by rw [h1]; exact hc.nick, ?_, ?_, ?_, by rw [h3]; exact hc.cfgNick, by rw [h4]; exact hc.cfgIdent⟩
+        intro b1 h1 h2 h3 h4 hs h5 h6
+        refine ⟨by rw [h1]; exact hc.nick, ?_, ?_, ?_, by rw [h3]; exact hc.cfgNick, by rw [h4]; exact hc.cfgIdent, by rw [hs]; exact hc.isup⟩
         · intro kc
           show ChanRel _ kc (aget (s.dropEverywhere (lower n)).chans kc) _
           rw [aget_dropEverywhere hw.chansNodup, h6 kc]
@@ -378,6 +378,7 @@ theorem coupled_quit {s : Srv} {b : Bot} (hw : SrvWF s) (hc : Coupled s b) (n r 
           simp [hnown]
         · rfl
         · rfl
+        · rfl
         · intro x hx
           show aget (adel (aset b.n2h (lower u.nick) u.mask) (lower u.nick)) x = _
           rw [hkey, aget_adel, aget_aset]
@@ -386,7 +387,7 @@ theorem coupled_quit {s : Srv} {b : Bot} (hw : SrvWF s) (hc : Coupled s b) (n r 
           show aget (amapAll b.channels (fun c => if lower u.nick ∈ c.users then c.removeUser u.nick else c)) kc = _
           rw [aget_amapAll, hkey]
       · simp only [hv, Bool.false_eq_true, ↓reduceIte, recvAll_nil]
-        apply hgen b rfl rfl rfl rfl (fun _ _ => rfl)
+        apply hgen b rfl rfl rfl rfl rfl (fun _ _ => rfl)
         intro kc
         cases hbc : aget b.channels kc with
         | none => rfl
